@@ -68,6 +68,41 @@ func realtimePart(r *vrun.Run) {
 		return m
 	}
 
+	// I/O reference: what one heartbeat does to the filesystem (rewrite a small file, stamp it), done every period next to
+	// the lock directory with the plain os package; its duration tells whether the FILESYSTEM kept up at that moment
+	var ios []lat
+	go func() {
+		p := filepath.Join(dir, "io-reference.beat")
+		for root.Err() == nil {
+			t0 := time.Now()
+			_ = os.WriteFile(p, []byte(fmt.Sprintf("alive @ %v", t0)), 0o644)
+			_ = os.Chtimes(p, t0, t0)
+			d := time.Since(t0)
+			lmu.Lock()
+			ios = append(ios, lat{time.Now(), d})
+			lmu.Unlock()
+			time.Sleep(lockh.Period)
+		}
+	}()
+	maxIO := func(from, to time.Time) time.Duration {
+		lmu.Lock()
+		defer lmu.Unlock()
+		var m time.Duration
+		n := 0
+		for _, l := range ios {
+			if l.at.After(from.Add(-time.Second)) && l.at.Before(to.Add(time.Second)) {
+				n++
+				if l.over > m {
+					m = l.over
+				}
+			}
+		}
+		if n == 0 {
+			return time.Hour
+		}
+		return m
+	}
+
 	// load: fsync storms, directory churn in the same parent, busy loops
 	var lwg sync.WaitGroup
 	var ioOps atomic.Int64
@@ -168,10 +203,12 @@ func realtimePart(r *vrun.Run) {
 			continue
 		}
 		r.Obs("realtime_stale_reports_on_live_lock", 1)
-		quiet := maxOver(o.c, o.t) < lockh.Period/2
+		// a verdict needs a responsive scheduler AND a filesystem which did a heartbeat's worth of I/O in less than half a
+		// period around that instant: otherwise the lateness is the environment's, not the library's
+		quiet := maxOver(o.c, o.t) < lockh.Period/2 && maxIO(o.c, o.t) < lockh.Period/2
 		if !w.StaleReadableDuringMargin(o.c, o.t, margin) {
 			if !quiet {
-				r.Inconclusive("real-time: stale report not explained by the stamps, but the scheduler-latency reference was above half a period")
+				r.Inconclusive("real-time: stale report not explained by the stamps, but a latency reference (scheduler or filesystem) was above half a period")
 				continue
 			}
 			r.Violation(vrun.Sig{"clause": "soundness", "effect": "live-lock-reported-stale", "mode": "real-time-under-load"},
@@ -182,10 +219,10 @@ func realtimePart(r *vrun.Run) {
 		// the heartbeat really was more than two periods late
 		if quiet {
 			r.Violation(vrun.Sig{"clause": "heartbeat-liveness", "effect": "heartbeat-late-although-scheduler-responsive", "mode": "real-time-under-load"},
-				fmt.Sprintf("the live holder's heartbeat was more than 2 periods late at +%dms although a goroutine sleeping one period overshot by less than half a period", o.t.Sub(w.Start).Milliseconds()),
+				fmt.Sprintf("the live holder's heartbeat was more than 2 periods late at +%dms although a goroutine sleeping one period overshot by less than half a period and a heartbeat-sized write next to the lock took less than half a period", o.t.Sub(w.Start).Milliseconds()),
 				map[string]any{"latency_reference_max_overshoot_ms": maxOver(o.c, o.t).Milliseconds()})
 		} else {
-			r.Inconclusive("real-time: heartbeat late while the scheduler-latency reference was above half a period (load)")
+			r.Inconclusive("real-time: heartbeat late while a latency reference (scheduler or filesystem) was above half a period (load)")
 		}
 	}
 	lmu.Lock()
@@ -197,4 +234,13 @@ func realtimePart(r *vrun.Run) {
 	}
 	lmu.Unlock()
 	r.ObsMax("realtime_latency_reference_worst_overshoot_ms", worst.Milliseconds())
+	lmu.Lock()
+	var worstIO time.Duration
+	for _, l := range ios {
+		if l.over > worstIO {
+			worstIO = l.over
+		}
+	}
+	lmu.Unlock()
+	r.ObsMax("realtime_io_reference_worst_ms", worstIO.Milliseconds())
 }
